@@ -390,4 +390,65 @@ round finishes at least the modules all of whose dependants have finished). -/
 def finishSchedule (mods : List Mod) : List REv :=
   (List.replicate mods.length (mods.flatMap modSched)).flatten
 
+/-! ### the manager as built by ANY sequence of `RegisterModule` / `AddDependency` calls
+
+Module numbers are handed out in the order of FIRST registration (the harness names them accordingly), so
+"registered" stays `m < g.n`. `RegisterModule(name, …)` with a number `≥ g.n` registers a new name (it gets
+number `g.n`); with a number `< g.n` it is the re-registration of an existing name: the Go code stores a
+fresh `*module` under the name, i.e. the module's OWN dependency list is dropped, its init function and
+flags are replaced, and every edge that points TO it (other modules' `deps` hold the name) survives. -/
+
+structure Mgr where
+  g : Graph := Graph.empty 0
+  hasInit : List Bool := []           -- initFn != nil
+  flags : List (Bool × Bool) := []    -- (userVisible, targetable)
+deriving Repr, DecidableEq
+
+inductive MCall
+  | register (m : Mod) (hasInit : Bool) (opts : List ModOpt)
+  | addDep (name : Mod) (dependsOn : List Mod)
+deriving Repr, DecidableEq
+
+/-- `RegisterModule(name, initFn, options...)`. -/
+def registerModule (M : Mgr) (m : Mod) (hasInit : Bool) (opts : List ModOpt) : Mgr :=
+  if m < M.g.n then
+    { g := { M.g with deps := setDeps M.g.deps m (fun _ => []) },
+      hasInit := M.hasInit.set m hasInit, flags := M.flags.set m (applyOpts opts) }
+  else
+    { g := { n := M.g.n + 1, deps := M.g.deps ++ [[]] },
+      hasInit := M.hasInit ++ [hasInit], flags := M.flags ++ [applyOpts opts] }
+
+/-- one call; the recursion bound for `DependenciesForModule` inside `AddDependency` is the number of
+registered modules + 1 (enough on every graph these calls can build: `Props/C18.lean`). -/
+def Mgr.call (M : Mgr) : MCall → AddRes × Mgr
+  | .register m hi opts => (.ok, registerModule M m hi opts)
+  | .addDep name ds =>
+    let r := addDependency M.g (M.g.n + 1) name ds
+    (r.1, { M with g := r.2 })
+
+def buildMgr (calls : List MCall) : Mgr := calls.foldl (fun M c => (M.call c).2) {}
+
+/-- the results of the calls, in order (the oracle's observation). -/
+def callResults : Mgr → List MCall → List AddRes
+  | _, [] => []
+  | M, c :: cs => (M.call c).1 :: callResults (M.call c).2 cs
+
+/-- what a query of a module that is not registered does. -/
+inductive QRes (α : Type) | val (a : α) | nilDeref | crash
+deriving Repr, DecidableEq
+
+def Mgr.isModuleRegistered (M : Mgr) (m : Mod) : Bool := M.g.has m
+def Mgr.isUserVisibleModule (M : Mgr) (m : Mod) : Bool := M.g.has m && (M.flags.getD m (false, false)).1
+def Mgr.isTargetableModule (M : Mgr) (m : Mod) : Bool := M.g.has m && (M.flags.getD m (false, false)).2
+/-- `UserVisibleModuleNames` (Go sorts by name; as module numbers, ascending). -/
+def Mgr.userVisibleModuleNames (M : Mgr) : List Mod := (List.range M.g.n).filter M.isUserVisibleModule
+/-- `DependenciesForModule(name)`: `m.modules[name].deps` on an unregistered name dereferences a nil `*module`. -/
+def Mgr.dependenciesForModule (M : Mgr) (fuel : Nat) (m : Mod) : QRes (List Mod) :=
+  if !M.g.has m then .nilDeref
+  else match dependenciesFor M.g fuel m with
+    | none => .crash
+    | some l => .val l
+/-- the `Cfg` `InitModuleServices` sees (every init function succeeds and returns a service). -/
+def Mgr.cfg (M : Mgr) : Cfg := { hasInit := M.hasInit, initErr := [], hasSvc := M.hasInit }
+
 end C18
